@@ -243,6 +243,8 @@ class Contract(object):
                 o.written.add(field)
                 if it.heap_log is not None:
                     it.heap_log.append((o, field))
+            elif o is None:
+                pass          # nothing to modify (e.g. an optional argument that is None at this call)
             else:
                 raise EngineError('modifies path %s is not an object' % head)
         outcomes = ['normal'] + sorted(self.raises.keys())
